@@ -849,7 +849,7 @@ func TestVerifC15(t *testing.T) {
 	if r.Thorough() {
 		steps = 60
 	}
-	nq, nt := 400, 40000
+	nq, nt := 400, 16000
 	if nodes > 1 {
 		nq, nt = 40, 1000
 	}
